@@ -29,7 +29,10 @@
 // within (#delayed+2) further rounds (rounds are counted, not time).
 // (5) exit 0 at end of stream for programs without failing requests; no Go
 // crash. Plus real `git clone`/`checkout`/`reset` scenarios (Git's own delay
-// client) judged on working-tree bytes.
+// client) judged on working-tree bytes. (6) The same under the configuration
+// coordinate lfs.fetchinclude / lfs.fetchexclude / GIT_LFS_SKIP_SMUDGE / --skip
+// (inclexcl.go): the expectation of a smudge is always the one-shot filter's
+// output for the same pathname, pointer and configuration.
 package main
 
 import (
@@ -39,6 +42,7 @@ import (
 	"sort"
 	"strings"
 	"sync"
+	"time"
 
 	"verif/harness/evid"
 	"verif/harness/sbx"
@@ -78,12 +82,13 @@ func (rn *runner) auxRace(rep string) {
 func main() {
 	run := evid.New("C14", "exploration")
 	defer sbx.RemoveBase()
-	run.Rule = "seeded request programs (target length 1..40 requests incl. list_available_blobs rounds and retrievals, 1..3 checkout phases) over {clean, smudge, smudge can-delay=1, list_available_blobs, retrieval} obeying Git's client grammar x capabilities {clean,smudge | clean,smudge,delay} x payload {random, text LF/CRLF, zeros, pointer-prefix+payload, look-alike at sizes 0,1,100,1023,1024,1025,65515..65517,131075; canonical pointers of pool objects / unknown oids; 8 non-canonical pointer texts; an object's own bytes} x packetisation {1,2,100,8192,65515,65516 bytes per packet, random sizes, whole; optional pauses} x object pool of 1..8 objects {local, server, flaky (1..maxretries failing GETs: 500/503/reset/cut), missing, always failing (500/503/reset/404), batch object error 403/410} x lfs.skipdownloaderrors x lfs.transfer.batchSize {default,1,2,3} x lfs.concurrenttransfers {default,1,3} x maxretries {1,2}; same oid delayed under two paths; requests interleaved between list rounds; treeish=/blob= headers as Git sends. Plus real-Git scenarios (clone, clone --no-checkout + checkout, branch switch, delete+restore, reset --hard; batch sizes; transient faults). Class = (delay capability, skipdownloaderrors, batch size, length bucket, phases, request kinds used, object kinds smudged, dup-oid, interleave, race binary)."
+	run.Rule = "seeded request programs (target length 1..40 requests incl. list_available_blobs rounds and retrievals, 1..3 checkout phases) over {clean, smudge, smudge can-delay=1, list_available_blobs, retrieval} obeying Git's client grammar x capabilities {clean,smudge | clean,smudge,delay} x payload {random, text LF/CRLF, zeros, pointer-prefix+payload, look-alike at sizes 0,1,100,1023,1024,1025,65515..65517,131075; canonical pointers of pool objects / unknown oids; 8 non-canonical pointer texts; an object's own bytes} x packetisation {1,2,100,8192,65515,65516 bytes per packet, random sizes, whole; optional pauses} x object pool of 1..8 objects {local, server, flaky (1..maxretries failing GETs: 500/503/reset/cut), missing, always failing (500/503/reset/404), batch object error 403/410} x lfs.skipdownloaderrors x lfs.transfer.batchSize {default,1,2,3} x lfs.concurrenttransfers {default,1,3} x maxretries {1,2}; same oid delayed under two paths; requests interleaved between list rounds; treeish=/blob= headers as Git sends. Plus real-Git scenarios (clone, clone --no-checkout + checkout, branch switch, delete+restore, reset --hard; batch sizes; transient faults). Plus the configuration coordinate include/exclude/skip: request programs and real-Git scenarios (checkout after clone --no-checkout with objects on the server; restore of deleted files with every object local; objects of not allowed paths missing on the server; git cat-file --filters) under {lfs.fetchinclude, lfs.fetchexclude, both, neither} with 1..3 patterns of forms {*.ext, dir/, dir/**, exact path, names needing escaping or quoting} set via .git/config or via the environment `git -c` exports x {can-delay 0/1, delay capability or not} x object {local, server, flaky, missing, failing} x {GIT_LFS_SKIP_SMUDGE, --skip, neither}; shape, route, capability and skip switch rotate by ordinal, first pattern form rotates by ordinal. Class = (delay capability, skipdownloaderrors, batch size, length bucket, phases, request kinds used, object kinds smudged, dup-oid, interleave, include/exclude shape, route, skip switch, pattern forms, race binary)."
 	run.Assumptions = []string{
 		"Git's client grammar is taken from gitattributes(5) and Git's convert.c/entry.c: no can-delay request is sent between the first list_available_blobs of a checkout and its empty list; a path is delayed at most once per checkout; list_available_blobs is only sent when at least one blob is delayed",
 		"failure equivalence (DESIGN §5 C14, §7 item 13): where the one-shot smudge exits non-zero the filter process may answer error/abort or end with non-zero exit status in the middle of the answer",
 		"for objects whose download fails transiently the right content is always accepted; a failure is accepted only if a fresh one-shot twin fails as well",
 		"the one-shot reference runs in a fresh twin repository with the same configuration and with the named object present iff it is present in the main repository according to the driver's model; it is executed for a seeded sample of requests and for every request whose payload is a non-canonical pointer text",
+		"under lfs.fetchinclude/lfs.fetchexclude/GIT_LFS_SKIP_SMUDGE/--skip the driver has no model of the pattern language: the expectation of every smudge of a pointer is what the one-shot `git-lfs smudge [--skip] -- <path>` prints for the same pointer in a twin repository with the same keys set by the same route; in the real-Git scenarios every object an allowed path names is obtainable, so the one-shot result does not depend on whether the object is already local (the twin holds the objects that are local before the judged command)",
 		"bounded liveness: quiescence = no request in flight at the fake server and every delayed object served or failed 1+maxretries scripted attempts; rounds are counted, never time; a fired watchdog without quiescence is inconclusive",
 	}
 	rn := &runner{run: run, shapes: map[string]bool{}, aux: map[string]int{}}
@@ -104,6 +109,32 @@ func main() {
 	for i := 0; i < nreal; i++ {
 		c := &ccase{Idx: nprog + i, Real: realScenarios[i%len(realScenarios)]}
 		if run.Thorough() && i%6 == 1 {
+			c.Race = true
+		}
+		cases = append(cases, c)
+	}
+	// configuration coordinate include/exclude/skip (inclexcl.go): real-Git scenarios and request programs of their own
+	nrealFilt := run.N(len(inclexclScenarios), 10*len(inclexclScenarios))
+	nfilt := run.N(21, 630)
+	switch os.Getenv("C14_INCLEXCL") { // debugging aid: timing comparison without (parts of) the coordinate
+	case "0":
+		nrealFilt, nfilt = 0, 0
+	case "real":
+		nfilt = 0
+	case "prog":
+		nrealFilt = 0
+	}
+	for i := 0; i < nrealFilt; i++ {
+		c := &ccase{Idx: nprog + nreal + i, Real: inclexclScenarios[i%len(inclexclScenarios)]}
+		if run.Thorough() && i%7 == 3 {
+			c.Race = true
+		}
+		cases = append(cases, c)
+	}
+	for i := 0; i < nfilt; i++ {
+		idx := nprog + nreal + nrealFilt + i
+		c := genFiltCase(i, idx, run.Seed*1000003+int64(idx))
+		if run.Thorough() && i%12 == 5 {
 			c.Race = true
 		}
 		cases = append(cases, c)
@@ -132,7 +163,13 @@ func main() {
 						return
 					}
 					seed := run.Seed*7919 + int64(c.Idx)*104729
-					if c.Real != "" {
+					if os.Getenv("C14_DEBUG") != "" {
+						t0 := time.Now()
+						defer func() { fmt.Fprintf(os.Stderr, "case %d (%s) took %.1fs\n", c.Idx, c.class(), time.Since(t0).Seconds()) }()
+					}
+					if strings.HasPrefix(c.Real, "inclexcl-") {
+						rn.realFilt(c, seed)
+					} else if c.Real != "" {
 						rn.realGit(c, seed)
 					} else {
 						rn.exec(c, seed)
@@ -175,7 +212,7 @@ func main() {
 
 func sampleOf(c *ccase) any {
 	if c.Real != "" {
-		return map[string]any{"idx": c.Idx, "real": c.Real}
+		return map[string]any{"idx": c.Idx, "real": c.Real, "drawn": c.RealVar}
 	}
 	var prog []string
 	for _, ph := range c.Phases {
@@ -188,5 +225,9 @@ func sampleOf(c *ccase) any {
 	for _, o := range c.Objects {
 		objs = append(objs, fmt.Sprintf("%s/%d/%s%d", o.Kind, o.Size, o.Fault, o.FailN))
 	}
-	return map[string]any{"idx": c.Idx, "delay": c.Delay, "skiperr": c.SkipErr, "batchSize": c.BatchSize, "objects": objs, "program": prog}
+	m := map[string]any{"idx": c.Idx, "delay": c.Delay, "skiperr": c.SkipErr, "batchSize": c.BatchSize, "objects": objs, "program": prog}
+	if c.Filt != nil {
+		m["filter"] = c.Filt
+	}
+	return m
 }
